@@ -44,6 +44,8 @@ import (
 
 	"github.com/whoisnian/glb/httpd"
 	"github.com/whoisnian/glb/logger"
+	"sync/atomic"
+	"time"
 	"verifharness/hk"
 )
 
@@ -123,10 +125,10 @@ type look struct {
 type obs struct {
 	look             // at handler entry
 	exit, after look // at handler exit; in the relay after the handler
-	own     int      // W.Status as the request itself last made it
-	ownExit int      // ... at handler exit
-	ran     int
-	ptr     uintptr
+	own         int  // W.Status as the request itself last made it
+	ownExit     int  // ... at handler exit
+	ran         int
+	ptr         uintptr
 }
 
 type reqCtx struct {
@@ -134,6 +136,9 @@ type reqCtx struct {
 	spec *reqSpec
 	o    obs
 	idx  int // which handler ran (-1 no-route)
+	// the generations of the no-route handler and of the relay that must run (the newest when the request was served)
+	wantNR, wantRelay int
+	staleNR           bool
 }
 
 // parameter names used in patterns: case variants, prefixes and extensions of each other
@@ -152,13 +157,16 @@ type world struct {
 	nev    int
 	ctxs   sync.Map // *http.Request -> *reqCtx
 	log    bool
+	// HandleNoRoute / HandleRelay may be called again between requests: every call installs a handler of a new
+	// GENERATION; a request must run the newest ones (and see the newest no-route RouteInfo in Store.I)
+	nrGen, relayGen int
 }
 
 func newWorld(log bool) *world {
 	w := &world{mux: httpd.NewMux(), log: log}
 	w.lg = logger.New(logger.NewNanoHandler(io.Discard, logger.NewOptions(slog.LevelInfo, false, false)))
-	w.mux.HandleRelay(w.relay)
-	w.mux.HandleNoRoute(w.handler(-1))
+	w.installNoRoute()
+	w.installRelay()
 	return w
 }
 
@@ -172,14 +180,28 @@ func (w *world) event(fields ...string) {
 	w.mu.Unlock()
 }
 
+func (w *world) installNoRoute() {
+	w.nrGen++
+	w.mux.HandleNoRoute(w.handlerGen(-1, w.nrGen))
+}
+
+func (w *world) installRelay() {
+	w.relayGen++
+	gen := w.relayGen
+	w.mux.HandleRelay(func(s *httpd.Store) { w.relay(s, gen) })
+}
+
 func clone(s string) string { return string(append([]byte(nil), s...)) }
 
 // read: everything a handler can read through the Store; a panicking accessor is an outcome, not a crash
-func (w *world) read(s *httpd.Store, idx int) (l look) {
+func (w *world) read(s *httpd.Store, idx int, stale bool) (l look) {
 	l.vals = make([]string, len(allNames))
 	l.who = "nr"
 	if idx >= 0 {
 		l.who = "r" + strconv.Itoa(idx)
+	}
+	if stale {
+		defer func() { l.who = "stale-" + l.who }() // an older generation of the no-route handler / relay ran
 	}
 	defer func() {
 		if recover() != nil {
@@ -210,14 +232,17 @@ func (l look) fields() []string {
 	return f
 }
 
-func (w *world) handler(idx int) httpd.HandlerFunc {
+func (w *world) handler(idx int) httpd.HandlerFunc { return w.handlerGen(idx, 0) }
+
+func (w *world) handlerGen(idx int, gen int) httpd.HandlerFunc {
 	return func(s *httpd.Store) {
 		cv, _ := w.ctxs.Load(s.R)
 		c := cv.(*reqCtx)
 		o := &c.o
 		o.ran++
 		c.idx = idx
-		o.look = w.read(s, idx)
+		c.staleNR = idx < 0 && gen != c.wantNR
+		o.look = w.read(s, idx, c.staleNR)
 		o.own = o.look.status
 		o.ptr = uintptr(unsafe.Pointer(s))
 		w.event(append([]string{"B", strconv.Itoa(c.k), hk.Hxs(c.spec.path), hk.Hxs(c.spec.meth)}, o.look.fields()...)...)
@@ -244,7 +269,7 @@ func (w *world) handler(idx int) httpd.HandlerFunc {
 			flush()
 		}
 		o.ownExit = o.own
-		o.exit = w.read(s, idx)
+		o.exit = w.read(s, idx, c.staleNR)
 		w.event(append([]string{"X", strconv.Itoa(c.k)}, o.exit.fields()...)...)
 		if c.spec.behave != bRet {
 			panic("handler panic of request " + strconv.Itoa(c.k))
@@ -254,7 +279,7 @@ func (w *world) handler(idx int) httpd.HandlerFunc {
 
 // relay: Logger.Relay (recovers), or nothing (the panic leaves ServeHTTP); in both cases the Store is read once more
 // after the handler, before ServeHTTP resets it.
-func (w *world) relay(s *httpd.Store) {
+func (w *world) relay(s *httpd.Store, gen int) {
 	cv, _ := w.ctxs.Load(s.R)
 	c, _ := cv.(*reqCtx)
 	if c == nil {
@@ -269,7 +294,7 @@ func (w *world) relay(s *httpd.Store) {
 			c.o.own = st
 			w.event("W", strconv.Itoa(c.k), strconv.Itoa(st))
 		}
-		c.o.after = w.read(s, c.idx)
+		c.o.after = w.read(s, c.idx, c.staleNR || gen != c.wantRelay)
 		how := [...]string{"ret", "rec", "esc"}[c.spec.behave]
 		w.event(append([]string{"Y", strconv.Itoa(c.k), how}, c.o.after.fields()...)...)
 	}()
@@ -297,7 +322,7 @@ func (w *world) register(r route) (ok bool) {
 // serve: runs one request; escaped reports a panic leaving ServeHTTP
 func (w *world) serve(k int, q *reqSpec) (c *reqCtx, escaped bool) {
 	r := &http.Request{Method: q.meth, URL: &url.URL{Path: q.path}, RequestURI: q.path, Header: http.Header{}, RemoteAddr: "10.0.0.1:1"}
-	c = &reqCtx{k: k, spec: q}
+	c = &reqCtx{k: k, spec: q, wantNR: w.nrGen, wantRelay: w.relayGen}
 	w.ctxs.Store(r, c)
 	defer w.ctxs.Delete(r)
 	rec := httptest.NewRecorder()
@@ -455,8 +480,8 @@ func (h *history) judge(e *hk.Env, st *stats) {
 
 type stats struct {
 	histories, requests, events, matched, noroute, recovered, escaped, withValues, distinctStores, violations int
-	escapeDiffers, flushes, rehandled, idOnlyRequests                                                           int
-	lateMoreParams, overlapForced                                                                                int
+	escapeDiffers, flushes, rehandled, idOnlyRequests                                                         int
+	lateMoreParams, overlapForced                                                                             int
 }
 
 // ---------------------------------------------------------------------------------------------------------------
@@ -593,8 +618,12 @@ func sequentialHistory(e *hk.Env, r *hk.Rng, st *stats) {
 			continue
 		}
 		if r.Chance(6) { // the other two registrations, between requests: a new no-route info, the relay again
-			h.w.mux.HandleNoRoute(h.w.handler(-1))
-			h.w.mux.HandleRelay(h.w.relay)
+			if r.Chance(70) {
+				h.w.installNoRoute()
+			}
+			if r.Chance(50) {
+				h.w.installRelay()
+			}
 			st.rehandled++
 		}
 		q := genRequest(r, h.w.routes)
@@ -697,6 +726,9 @@ func concurrentHistory(e *hk.Env, r *hk.Rng, st *stats, perWorker int) {
 }
 
 func run(e *hk.Env) error {
+	if os.Getenv("VERIF_SMOKE386") != "" {
+		return smoke386(e)
+	}
 	var st stats
 	// maximal Store reuse: sync.Pool is emptied by the GC, so keep the GC away from the tight loops
 	old := debug.SetGCPercent(-1)
@@ -722,6 +754,23 @@ func run(e *hk.Env) error {
 		q2 := reqSpec{path: "/b/1/2", meth: "GET"}
 		c, esc = h.w.serve(1, &q2)
 		h.served = append(h.served, served{k: 1, spec: q2, nroutes: 2, o: c.o, escaped: esc})
+		h.judge(e, &st)
+	}
+
+	{ // HandleNoRoute / HandleRelay called again after requests were served: pooled Stores must not keep the old no-route info
+		h := &history{w: newWorld(true), seq: true}
+		h.w.register(route{"/a/:id", "GET"})
+		k := 0
+		for round := 0; round < 3; round++ {
+			for _, p := range []string{"/zz", "/a/1", "/zz/1", "/"} {
+				q := reqSpec{path: p, meth: "GET"}
+				c, esc := h.w.serve(k, &q)
+				h.served = append(h.served, served{k: k, spec: q, nroutes: 1, o: c.o, escaped: esc})
+				k++
+			}
+			h.w.installNoRoute()
+			h.w.installRelay()
+		}
 		h.judge(e, &st)
 	}
 
@@ -822,5 +871,64 @@ func run(e *hk.Env) error {
 	e.Stats["go_side_oracle_violations"] = st.violations
 	e.Stats["distinct_nontrivial"] = st.histories
 	e.Sample("samples", map[string]any{"names_queried_in_every_handler": allNames, "example_routes": fmt.Sprint(genRoutes(hk.NewRng(7), 4))}, 5)
+	return nil
+}
+
+// smoke386: the short subset run by the GOARCH=386 binary (lib/httpd_static.py, thorough tier): one Mux, a few hundred
+// requests, several in flight; a panic escaping ServeHTTP on its own account is "VIOL panic-on-386 ...".
+func smoke386(e *hk.Env) error {
+	mux := httpd.NewMux()
+	var served, inFlight, maxInFlight atomic.Int64
+	gate := make(chan struct{})
+	h := func(s *httpd.Store) {
+		n := inFlight.Add(1)
+		for {
+			m := maxInFlight.Load()
+			if n <= m || maxInFlight.CompareAndSwap(m, n) {
+				break
+			}
+		}
+		_ = s.RouteParam("x") + s.RouteParamAny() + s.GetID()
+		<-gate // the first wave of requests is held in flight together
+		inFlight.Add(-1)
+		served.Add(1)
+	}
+	mux.Handle("/a/:x", "GET", h)
+	mux.Handle("/b/*", "*", h)
+	mux.HandleNoRoute(h)
+	var mu sync.Mutex
+	panics := 0
+	serve := func(p string) {
+		defer func() {
+			if r := recover(); r != nil {
+				mu.Lock()
+				if panics < 3 {
+					e.Case("VIOL", "panic-on-386", "ServeHTTP_panicked_on_GOARCH=386_for_path", hk.Hxs(p), strings.ReplaceAll(fmt.Sprint(r), " ", "_"))
+				}
+				panics++
+				mu.Unlock()
+			}
+		}()
+		mux.ServeHTTP(httptest.NewRecorder(), &http.Request{Method: "GET", URL: &url.URL{Path: p}, RequestURI: p, Header: http.Header{}, RemoteAddr: "10.0.0.1:1"})
+	}
+	var wg sync.WaitGroup
+	paths := []string{"/a/1", "/b/r/s", "/zz", "/", "", "/a/"}
+	for g := 0; g < 8; g++ {
+		wg.Add(1)
+		go func(g int) {
+			defer wg.Done()
+			for i := 0; i < 50; i++ {
+				serve(paths[(g+i)%len(paths)])
+			}
+		}(g)
+	}
+	for i := 0; i < 2000 && inFlight.Load() < 8 && panics == 0; i++ {
+		time.Sleep(time.Millisecond)
+	}
+	close(gate)
+	wg.Wait()
+	e.Case("SMOKE386", fmt.Sprintf("requests=%d served=%d max_in_flight=%d panics=%d", 400, served.Load(), maxInFlight.Load(), panics))
+	e.Stats["smoke386_requests"] = 400
+	e.Stats["smoke386_panics"] = panics
 	return nil
 }
